@@ -73,7 +73,7 @@ fn setup(c: &Case) -> (Dispatch, Vec<tracing_capture::SharedStorage>, Vec<Option
 }
 
 fn setup_logged(c: &Case) -> (Dispatch, Vec<tracing_capture::SharedStorage>, Vec<Option<(tracing_core::span::Id, usize)>>, Vec<program::FeCall>) {
-    let cfg = Config { layers: vec![c.filter.clone()], global: None, pass: vec![], per_layer: false, nested: false };
+    let cfg = Config { layers: vec![c.filter.clone()], global: None, pass: vec![], per_layer: false, nested: false, probes: vec![] };
     let (dispatch, storages) = cfg.build();
     let mut main = Runner::new(&c.sites);
     dispatcher::with_default(&dispatch, || {
@@ -308,7 +308,7 @@ fn run_hold(c: &Case, ms: u64, n: usize, out: &mut Outcome) {
     let slow_site = Site { is_span: false, level: 2, name: "slow-event".into(), target: "app".into(), module_path: None, file: None, line: None, fields: vec!["v".into()] };
     let (ev_meta, sp_meta, slow_meta) = (crate::dynsite::metadata_for(&ev_site), crate::dynsite::metadata_for(&sp_site), crate::dynsite::metadata_for(&slow_site));
     for phase in 0..2 {
-        let cfg = Config { layers: vec![c.filter.clone()], global: None, pass: vec![], per_layer: false, nested: false };
+        let cfg = Config { layers: vec![c.filter.clone()], global: None, pass: vec![], per_layer: false, nested: false, probes: vec![] };
         let (dispatch, storages) = cfg.build();
         let storage = storages[0].clone();
         let started = std::sync::Barrier::new(2);
@@ -372,7 +372,7 @@ fn run_hold(c: &Case, ms: u64, n: usize, out: &mut Outcome) {
                 tracing_core::Event::dispatch(self.0, &vs);
             }
         }
-        let cfg = Config { layers: vec![c.filter.clone()], global: None, pass: vec![], per_layer: false, nested: false };
+        let cfg = Config { layers: vec![c.filter.clone()], global: None, pass: vec![], per_layer: false, nested: false, probes: vec![] };
         let (dispatch, storages) = cfg.build();
         let storage = storages[0].clone();
         let started = std::sync::Barrier::new(2);
@@ -480,7 +480,7 @@ fn shared_handles(ops: &[POp], n_shared: usize) -> Vec<Option<usize>> {
 fn run_storm(c: &Case, n: usize, m: usize, out: &mut Outcome) {
     let site = Site { is_span: true, level: 2, name: "shared".into(), target: "app".into(), module_path: None, file: None, line: None, fields: (0..n).map(|i| format!("t{i}")).collect() };
     let meta = crate::dynsite::metadata_for(&site);
-    let cfg = Config { layers: vec![c.filter.clone()], global: None, pass: vec![], per_layer: false, nested: false };
+    let cfg = Config { layers: vec![c.filter.clone()], global: None, pass: vec![], per_layer: false, nested: false, probes: vec![] };
     let (dispatch, storages) = cfg.build();
     let storage = storages[0].clone();
     let span = dispatcher::with_default(&dispatch, || {
